@@ -169,6 +169,17 @@ func runC11(r *run) {
 		if len(seq) == 0 || len(seq) > 4 {
 			continue
 		}
+		// style 1b: the same calls with a record emitted (and the getters read) after every call
+		if len(seq) >= 2 {
+			reset()
+			for i, m := range seq {
+				apply(loggers[1].l, m)
+				loggers[1].spec = specFmt(loggers[1].spec, m)
+				r.emit("C11 set 1 "+m.tok, "ok")
+				probeAll("set, probing after every call", seq[:i+1])
+			}
+			r.seen(key("set-probe-each"))
+		}
 		// style 2: With… chain starting at the root
 		reset()
 		cur := loggers[0]
